@@ -31,7 +31,7 @@ def field(cmp=None, ty="eq", kty="eq", dom=2, nan=False):
 
 
 def ty_src(f):
-    return {"eq": "::dx_support::V", "noneq": "::dx_support::NE", "pv": "::dx_support::PV", "w": "::dx_support::W"}[f["ty"]]
+    return {"eq": "::dx_support::V", "noneq": "::dx_support::NE", "pv": "::dx_support::PV", "w": "::dx_support::W", "wc": "::dx_support::Wc"}[f["ty"]]
 
 
 def key_expr(a, f, mode):
